@@ -55,6 +55,27 @@ func listShapes(maxEntries int) []refesl.List {
 			}
 		}
 	}
+	return append(out, specialShapes()...)
+}
+
+// specialShapes are well-formed lists a decoder might be tempted to "tidy up": the same entry
+// twice, the same data under two owners, X.509 entries whose payload is PEM text or begins / ends
+// with white-space, NUL or 0xff bytes. Decoding must hand back exactly what is there.
+func specialShapes() []refesl.List {
+	e := func(o refesl.GUID, d []byte) refesl.Entry { return refesl.Entry{Owner: o, Data: d} }
+	h := fill(32, 0x51)
+	var out []refesl.List
+	out = append(out,
+		refesl.Mk(refesl.SHA256, 48, e(ownerA, h), e(ownerA, h)),
+		refesl.Mk(refesl.SHA256, 48, e(ownerA, h), e(ownerB, fill(32, 0x52)), e(ownerA, h)),
+		refesl.Mk(refesl.SHA256, 48, e(ownerA, h), e(ownerB, h)),
+		refesl.Mk(refesl.X509, 16+6, e(ownerB, fill(6, 0x53)), e(ownerB, fill(6, 0x53))),
+	)
+	pemText := []byte("-----BEGIN CERTIFICATE-----\nAQIDBAUGBwg=\n-----END CERTIFICATE-----\n")
+	out = append(out, refesl.Mk(refesl.X509, uint32(16+len(pemText)), e(ownerA, pemText)))
+	for _, d := range [][]byte{[]byte(" \tDER\r\n"), {0x30, 0x03, 0x02, 0x01, 0x0a}, {0x00, 0x30, 0x00}, {0xff, 0xfe, 0x00, 0x00}, []byte("\n")} {
+		out = append(out, refesl.Mk(refesl.X509, uint32(16+len(d)), e(ownerA, d)))
+	}
 	return out
 }
 
